@@ -126,12 +126,22 @@ func (s *JoiningSource) tryGetSource(handler Handler, factory ForkableSourceFact
 	return factory.SourceFromBlockNum(s.startBlockNum, handler)
 }
 
+// isNewBlockEvent tells whether a file-side event hands the consumer a block it does not hold yet
+// (new+irreversible). The undo and irreversible events replayed by the cursor resolver concern blocks
+// the consumer already holds: joining on them would drop the undo or deliver those blocks a second time.
+func isNewBlockEvent(obj interface{}) bool {
+	if stepable, ok := obj.(Stepable); ok {
+		return stepable.Step().Matches(StepNew)
+	}
+	return true
+}
+
 func (s *JoiningSource) fileSourceHandler(blk *pbbstream.Block, obj interface{}) error {
 	if s.liveSource != nil { // we should be already shutdown anyway
 		return nil
 	}
 
-	if blk.Number >= s.lowestLiveBlockNum {
+	if blk.Number >= s.lowestLiveBlockNum && isNewBlockEvent(obj) {
 		if s.cursorIsTarget {
 			if src := s.liveSourceFactory.SourceThroughCursor(blk.Number, s.cursor, s.handler); src != nil {
 				s.liveSource = src
